@@ -649,10 +649,13 @@ class PlainAsyncIterable:
         self.n, self.delay, self.raise_at, self.yielded, self.make = n, delay, raise_at, yielded, make
         self.i = 0
 
+    started = False
+
     def __aiter__(self):
         return self
 
     async def __anext__(self):
+        self.started = True
         if self.delay:
             await asyncio.sleep(self.delay)
         if self.raise_at == self.i:
@@ -662,6 +665,14 @@ class PlainAsyncIterable:
         self.yielded.append(self.i)
         self.i += 1
         return self.make(self.i - 1)
+
+
+class ClosableAsyncIterable(PlainAsyncIterable):
+    """a class-based async producer that has its own aclose() (and nothing else of the generator protocol)"""
+    closed = 0
+
+    async def aclose(self):
+        self.closed += 1
 
 
 def asgi_large_chunks(ctx, cls_name, sizes):
@@ -719,6 +730,7 @@ def asgi_scenario(ctx, cls_name, n_items, item_delay, send_delay, t_disc, ping, 
     def make(i):
         return {"data": str(i), "id": str(i)} if sse else b"%d;" % i
 
+    box = {}
     BUSY_CAP = 5000
     steps = [0]
 
@@ -773,7 +785,8 @@ def asgi_scenario(ctx, cls_name, n_items, item_delay, send_delay, t_disc, ping, 
 
     async def main():
         kw = {"ping_interval": ping} if sse else {}
-        producer = gen() if agen else PlainAsyncIterable(n_items, item_delay, raise_at, yielded, make)
+        producer = gen() if agen else (ClosableAsyncIterable if (n_items + int(send_delay * 2)) % 2 else PlainAsyncIterable)(n_items, item_delay, raise_at, yielded, make)
+        box["producer"] = producer
         resp = cls(producer, **kw)
         exc = None
         try:
@@ -830,6 +843,11 @@ def asgi_scenario(ctx, cls_name, n_items, item_delay, send_delay, t_disc, ping, 
     ctx.mon("no-pending-task")
     if pending:
         ctx.violation(f"{fam}|task-still-pending-at-quiescence", case, repr(pending))
+    if isinstance(box.get("producer"), ClosableAsyncIterable):
+        ctx.mon("cleanup-exactly-once")
+        if box["producer"].started and raise_at is None and box["producer"].closed != 1:
+            # (a producer that was never asked for an item has nothing to release; one that raised by itself has ended on its own terms)
+            ctx.violation(f"{fam}|class-based-producer-aclose-called-{box['producer'].closed}-times", case, "")
     if agen:
         ctx.mon("cleanup-exactly-once")
         ncl = cleanup_at_quiescence[0] if cleanup_at_quiescence else len(cleanup)
